@@ -882,6 +882,8 @@ public:
                    " does not exist");
       }
       if (contains(x)) {
+	// the representative of x before x is renamed
+	element_t rep_x = find(x);
 	// remove the key-value entry where key==x
 	// rename key-value entries   where value==x
 	boost::optional<element_t> parent_x;
@@ -905,6 +907,11 @@ public:
 	    RenameElementInDomain{}(*(ec.detach_and_get_absval()), x, y); 
 	    m_classes.erase(it);
 	    m_classes.insert({y, std::move(ec)});
+	  } else {
+	    // x is not the representative of its class: the domain
+	    // of the class mentions x all the same
+	    equivalence_class_t &ec = m_classes.at(rep_x);
+	    RenameElementInDomain{}(*(ec.detach_and_get_absval()), x, y);
 	  }
 	}
       }
